@@ -1,6 +1,7 @@
 package main
 
 import (
+	"go/token"
 	"fmt"
 	"go/types"
 	"strings"
@@ -227,6 +228,15 @@ func c10r2(w *World, rr *RuleRun) {
 		}
 		t := w.TS.Of(in.bytes)
 		s = t.String()
+		// Write(binary.BigEndian.AppendUint64(nil, v)): the bytes are the big-endian encoding of v
+		if t.Op == OpCall && strings.Contains(t.Name, "AppendUint") && len(t.Args) >= 2 {
+			dst := t.Args[len(t.Args)-2]
+			if dst.IsConst("nil") && isIndexTerm(t.Args[len(t.Args)-1].String()) {
+				sawTime = true
+				rr.At(w, in.at, "token hash input", true, "interval-index: "+s)
+				continue
+			}
+		}
 		t.Walk(func(x *Term) bool {
 			if x.Op == OpCall && len(x.Args) > 0 && termEq(x.Args[0], addr) {
 				n := x.Name
@@ -343,6 +353,21 @@ func c10r2(w *World, rr *RuleRun) {
 			}
 		}
 	})
+	if !okN {
+		// range-over-int / counted loop: some comparison bounds a counter by maxIntervalDelta + 1
+		eachInstr([]*ssa.Function{vtok}, func(_ *ssa.Function, ins ssa.Instruction) {
+			bo, ok := ins.(*ssa.BinOp)
+			if !ok || !(bo.Op == token.LSS || bo.Op == token.GTR || bo.Op == token.LEQ || bo.Op == token.GEQ) {
+				return
+			}
+			for _, side := range []ssa.Value{bo.X, bo.Y} {
+				t := w.TS.Of(side)
+				if t.Op == OpBin && t.Name == "+" && t.Args[0].Op == OpField && t.Args[0].Obj == maxDelta && t.Args[1].IsConst("1") && blockInCycle(bo.Block()) || (t.Op == OpBin && t.Name == "+" && t.Args[0].Op == OpField && t.Args[0].Obj == maxDelta && t.Args[1].IsConst("1") && bo.Op == token.LSS) {
+					okN = true
+				}
+			}
+		})
+	}
 	rr.Oblige(shortFuncName(vtok), "validation tries maxIntervalDelta+1 intervals", w.P.Pos(vtok.Pos()), okN, "")
 	rr.Oblige(shortFuncName(vtok), "validation steps back by one interval", w.P.Pos(vtok.Pos()), okStep, "")
 	// loop bound variant: a for-loop with counter compared against maxIntervalDelta is not recognised → would be BROKEN by floor
